@@ -75,7 +75,7 @@ type c19Add struct {
 }
 
 type c19User struct {
-	Policy     string     `json:"policy"`   // "" = session has no policy; else the policy's user name
+	Policy     string     `json:"policy"` // "" = session has no policy; else the policy's user name
 	Quotas     []c19Quota `json:"quotas"`
 	Register   int        `json:"register"` // 0: no counters, 1: upload only, 2: both
 	Up         []c19Add   `json:"up"`
